@@ -754,7 +754,7 @@ def o_c05_sections(params, cases, outs):
                 return "expected error %s, got %s" % (d, g[:120])
             kind = g[2:-1]
             if d in ("hdrin", "databetween"):
-                if not kind.startswith(d + ":"):
+                if not (kind == d or kind.startswith(d + ":")):
                     return "expected error kind %s, got %s" % (d, kind[:80])
             elif kind != d:
                 return "expected error %s, got %s" % (d, kind[:120])
